@@ -65,7 +65,8 @@ def reduce_const(ex, kind, shape, elem, cond=None, sort="real"):
                                zand(c1, to_z3(elem(tuple(sk))) != to_z3(o.elem(tuple(sk))))))
         ctx.assume(z3.Or(z3.Not(same_shape), differ, c == o.const))
     reds.append(info)
-    if kind in ("min", "max") and cond is None:
+    if kind in ("min", "max") and cond is None and ctx.ghost.get("minmax_semantics"):
+        # (opt-in per task: most proofs only move extrema around and need congruence alone; the quantified facts slow them)
         # what a minimum / maximum IS (real arithmetic, no NaN): a bound of every element, attained at some position
         w = [ctx.fresh("rwit") for _ in shape]
         nonempty = zand(*[to_z3(n) > 0 for n in shape])
